@@ -5,7 +5,8 @@
     "${x}" and checks String.from(x).to_num() == x itself; the driver checks independently of the
     model that CPython's correctly rounded float(text) returns the original bits, that integral
     values print without '.' or 'e', and compares the text with the model's rendering;
-(b) literals: every decimal literal d{1,4}, d{1,2}.d{1,2} exhaustively (longer ones sampled) is
+(b) literals: every decimal literal d{1,4}, d{1,2}.d{1,2} exhaustively (longer ones sampled, including 12-24
+    significant digits with the point at every position and shortest texts of random doubles) is
     compared in-program with the nearest double injected by the host;
 (c) lexing: digit strings followed by .len / ..3 / .5 / ". 5" / "." / ".." / end / .x.y / ..-1 must
     parse as the model says (method access on a number, range, fraction, or the specific compile error)."""
@@ -83,6 +84,21 @@ def run(tier):
         ip = str(rng.below(10 ** rng.range(1, 6)))
         fp = "".join(str(rng.below(10)) for _ in range(rng.range(1, 6)))
         lits.append(ip + "." + fp)
+    # long literals: 12-24 significant digits with the decimal point at every position (the value must be the
+    # correctly rounded double, not a product of two roundings), and the shortest text of random doubles read back
+    for _ in range(4000 if quick else 100000):
+        nd = rng.range(12, 24)
+        digs = str(rng.range(1, 9)) + "".join(str(rng.below(10)) for _ in range(nd - 1))
+        cut = rng.range(1, nd)
+        lits.append(digs[:cut] + ("." + digs[cut:] if cut < nd else ""))
+        if rng.chance(30):
+            lits.append("0." + "0" * rng.range(0, 4) + digs)
+    for _ in range(1500 if quick else 40000):
+        x = rng.below(10 ** rng.range(14, 17)) / 10 ** rng.range(1, 16)
+        t = repr(x)
+        if "e" not in t and "inf" not in t:
+            lits.append(t)
+            lits.append(t[:-1] + str((int(t[-1]) + rng.range(1, 9)) % 10))
     for extra in ["9007199254740993", "9007199254740992", "0.1", "0.30000000000000004", "123456789012345678901234567890", "00012", "007.500",
                   "179769313486231570000000000000000000000000000000000000000000000000000000000000000000000000000000000000000000000000000000000000000000000000000000000000000000000000000000000000000000000000000000000000000000000000000000000000000000000000000000000000000000000000000000000000000000000000000000000000000000000000000",
                   "0.000000000000000000000000000000000000000000000000000000000000000000000000000000000000000000001"]:
